@@ -96,7 +96,7 @@ class CtxRecorder:
 
     def arg(self, items):
         """The argument as one of several kinds of iterable (the API documents Iterable[str]): list, tuple,
-        one-shot generator, iterator, dict keys view."""
+        one-shot generator, iterator, dict keys view, set / frozenset."""
         self._kind += 1
         k = self._kind % 6
         items = list(items)
@@ -108,6 +108,9 @@ class CtxRecorder:
             return iter(items)
         if k == 4 and len(set(map(id, items))) == len(items) and len(set(items)) == len(items):
             return dict.fromkeys(items).keys()
+        if k == 5:
+            # an unordered collection: every query this recorder makes is independent of argument order and repeats
+            return frozenset(items) if self._kind % 12 == 5 else set(items)
         return items
 
     # ---------------------------------------------------------------- setup
